@@ -104,22 +104,12 @@ class NetworkGraph(AbstractBaseIR):
         if verbose:
             print("\t\t...finished.")
 
-    def __getitem__(self, key: str):
-        """
-        Custom implementation of __getitem__ that dissolves strings of form "key1/key2/key3" into
-        lookups of form self[key1][key2][key3].
-
-        Parameters
-        ----------
-        key
-
-        Returns
-        -------
-        item
-        """
+    def _resolve(self, key: str, attr_fallback: bool = True):
+        """Resolves `key1/key2/key3` like `AbstractBaseIR._resolve`, and additionally accepts node names that
+        contain slashes themselves (nodes of hierarchical circuits)."""
 
         try:
-            return super().__getitem__(key)
+            return super()._resolve(key, attr_fallback)
         except KeyError:
             keys = key.split('/')
             for i in range(len(keys)):
